@@ -377,6 +377,12 @@ struct RawConn {
     tr: String,
     socks: Vec<TcpStream>,
     opened: Instant,
+    /// fewer sockets than asked for could be opened: the process ran out of descriptors (family "flood")
+    exhausted: bool,
+}
+
+fn open_descriptors() -> usize {
+    std::fs::read_dir("/proc/self/fd").map(|d| d.count()).unwrap_or(0)
 }
 
 fn ascii_json(v: &Value) -> String {
@@ -446,7 +452,8 @@ async fn run_program(idx: usize, prog: Value, big: usize, evs: Arc<Mutex<Vec<Str
                     }
                 }
                 ev["res"] = json!({"connected": socks.len()});
-                conns.insert(step["c"].as_u64().expect("c"), RawConn { tr, socks, opened: t0 });
+                let exhausted = (socks.len() as u64) < n;
+                conns.insert(step["c"].as_u64().expect("c"), RawConn { tr, socks, opened: t0, exhausted });
             }
             "send" => {
                 let c = conns.get_mut(&step["c"].as_u64().expect("c")).expect("send on a connection that was not opened");
@@ -477,6 +484,15 @@ async fn run_program(idx: usize, prog: Value, big: usize, evs: Arc<Mutex<Vec<Str
                 for r in results {
                     if !outs.contains(&r) {
                         outs.push(r);
+                    }
+                }
+                if c.exhausted {
+                    // environment, not verdict: server and clients share this process' descriptor table; before the
+                    // next step give the server's tasks time to notice the closed sockets and release their ends
+                    // (a server that never releases them keeps the table full and the following probes fail)
+                    let t1 = Instant::now();
+                    while open_descriptors() > 100 && t1.elapsed() < Duration::from_secs(30) {
+                        tokio::time::sleep(Duration::from_millis(50)).await;
                     }
                 }
                 ev["res"] = json!({"outs": outs});
